@@ -40,7 +40,7 @@ PROPS = {
                  "classes, literals, unterminated strings, comments of all three kinds, TAB/CR, lexer-error and non-ASCII characters) x 3 separators "
                  "x 6 parser contexts [thorough adds length 4 over 40 lexemes and length 5-6 over 16], (b) every 7th [thorough: every] char-boundary prefix "
                  "of the repository's .gleam files and /verif/corpus, (c) seeded token/char mutants of corpus windows, (d) seeded random UTF-8 and keyword soup. "
-                 "A case is non-trivial if its tree has >=2 tokens and (a syntax error was reported or >=3 nodes); distinct by FNV-1a of the text."),
+                 "A case is non-trivial if its tree has >=2 tokens and (a syntax error was reported or >=3 nodes); distinct by FNV-1a of the text. The oracle also enumerates the leaves by first_token()/next_token() - the walk glas's own features use - and demands that it reach every leaf."),
         "exhaustive_scope": "the lexeme-sequence sub-space (a) only; (b)-(d) are sampled",
         "assumptions": [
             "oracle: concatenated leaf token texts == input bytes; ranges non-empty, contiguous, from 0 to len; node range = hull of children (checked on the rowan tree the public API returns)",
@@ -62,7 +62,7 @@ PROPS = {
                  "100..50000 [thorough 200000], each in its own child process whose exit status/signal is observed; plus a nesting-bound sweep: 48 recursion units (every production that recurses: "
                  "delimiters, prefix operators, lambdas, case clauses/guards/alternatives, constructor and list patterns, bit-array segments, let/use/pipe/binary right operands, type applications, fn types, constants) "
                  "x depths 118..134 around the parser's bound of 128 x 41 tails (every lexeme, and none), unclosed, and 1500 [thorough 20000] towers of randomly mixed units. Non-trivial = errors reported or text longer than 8 bytes "
-                 "(tower/chain cases always); distinct by FNV-1a of the text / generator spec."),
+                 "(tower/chain cases always); distinct by FNV-1a of the text / generator spec. Chains also at 2040-4100 links after a lead / before a tail; 7 wide-delimiter shapes (bit arrays, constant tables, tuples, parameter / field lists); in child processes, chains nested through their LEFT-most operand (4 containers x 4 link kinds x 5-7 sizes up to 120 levels x 2000 links)."),
         "exhaustive_scope": "the lexeme-sequence sub-space only",
         "assumptions": [
             "stack size 2 MiB = tokio blocking-pool default, where the server parses; the 8 MiB main thread of `glas diagnostics` is strictly easier",
@@ -80,7 +80,7 @@ PROPS = {
         "rule": ("base files = generated single-module programs (2-8 well-formed items: functions, custom types, aliases, constants, imports; attributes, doc comments, pub/opaque; plain or wild trivia) "
                  "that parse error-free; victim = a function or custom type with a braced body; damage strictly inside the body: k=1 edits enumerated exhaustively over a fixed pool of 40 [thorough 120] base files x every victim "
                  "x every body token position x (insert each of 55 non-opening tokens | delete | replace by each of them), k=2..3 [thorough ..5] edits sampled. Braces are never inserted, deleted or replaced; "
-                 "no opening delimiter, string or comment opener is ever inserted. Distinct by FNV-1a of the damaged text (every damaged file is non-trivial by construction)."),
+                 "no opening delimiter, string or comment opener is ever inserted. Distinct by FNV-1a of the damaged text (every damaged file is non-trivial by construction). Damage tokens include complete string literals with an escaped backslash next to an escaped quote."),
         "exhaustive_scope": "k=1 damage over the fixed base pool; k>1 is sampled",
         "assumptions": [
             "oracle: every untouched item is found in the damaged file's item list with the same kind, name and text, in order, at its shifted offset; every reported error range and every extra/stray node lies in [victim start, start of the next untouched item); an error stamped on the next definition's first token counts as inside that definition",
@@ -99,7 +99,7 @@ PROPS = {
                  "table and left associativity require; (a') exhaustively every string-literal content of up to four pieces over {plain, escaped backslash, escaped quote, \\n escape, space, non-ASCII, raw newline, unicode escape} "
                  "followed by more code (the literal must end at its own closing quote); (b) seeded random programs from the reference grammar (imports with unqualified/type/aliased members, custom types with generics and labelled fields, aliases, constants, "
                  "functions with labelled/annotated/discarded parameters, attributes, let/let assert/use/expression statements, all expression and pattern forms, type expressions) printed with random legal trivia. "
-                 "Non-trivial = contains a function body; distinct by FNV-1a of the text. One generated case in 600 is a large module: the definitions of 250-500 generated modules in one file (~140 KB; thousands of calls, operators and field accesses in total), so that anything the parser counts per module rather than per nesting path is reached."),
+                 "Non-trivial = contains a function body; distinct by FNV-1a of the text. One generated case in 600 is a large module: the definitions of 250-500 generated modules in one file (~140 KB; thousands of calls, operators and field accesses in total), so that anything the parser counts per module rather than per nesting path is reached. Since round 8: hex/binary/octal literals, chained tuple indices, nested bit arrays, discarded list tails, tight operator layouts (never `-` glued to a digit after white space: disputed)."),
         "exhaustive_scope": "operator pairs and triples, string-literal contents up to 4 pieces; programs are sampled",
         "assumptions": [
             "oracle: zero syntax errors and CST read back through the public typed accessors == the generator's intended structure (S-expression equality), plus accessor cross-checks (op_kind table; Param.ty / StmtLet.body must return the child in that slot)",
@@ -118,7 +118,7 @@ PROPS = {
                  "known by construction; hover is asked at the declaration of every parameter, let variable, pattern variable (let, case with 1-2 subjects, list/tuple/constructor/string-prefix/as), "
                  "use binder, lambda parameter and function, and the displayed type must equal the constructed one. Ten polymorphic helpers with hand-written most-general signatures (incl. a mutually "
                  "recursive pair) are spliced into every module in random order with randomly chosen binder names (sometimes spelled like a top-level function) and compared up to bijective renaming "
-                 "of type variables. Non-trivial = every workspace (all contain generic instantiation); distinct by FNV-1a of the expected types; evaluations = hover comparisons. Every module has an alias Num<m> = Int through which half of the Ints inside constructor fields and alias bodies are spelled (an alias met inside another definition, seen from importing modules, with names of the defining module after it)."),
+                 "of type variables. Non-trivial = every workspace (all contain generic instantiation); distinct by FNV-1a of the expected types; evaluations = hover comparisons. Every module has an alias Num<m> = Int through which half of the Ints inside constructor fields and alias bodies are spelled (an alias met inside another definition, seen from importing modules, with names of the defining module after it). Since round 8/9: helpers poly_later, poly_fold/poly_sum/poly_sum2 (use + labelled arguments in another order), poly_flip over labelled function values."),
         "assumptions": [
             "well-typed Gleam only, and only constructs whose PRINCIPAL type is the constructed type: no empty list literals, no lone Ok/Error (both sides pinned by a two-armed case or a helper), no constructor that leaves a type parameter open",
             "unlabelled parameters/fields precede labelled ones; `..` in constructor patterns only when a field is actually omitted (both are errors in Gleam otherwise)",
@@ -176,7 +176,7 @@ PROPS = {
         "death_is_violation": False,
         "rule": ("workspaces of 1-4 modules from the scope-aware generator (names from pools of 4-7 spellings per namespace, so shadowing is the norm; imports qualified, aliased, unqualified, unqualified-aliased, "
                  "type imports; all statement/expression/pattern forms); goto_definition is asked at the start and end offset of EVERY identifier the printer emitted and compared with the binding the generator "
-                 "recorded. A workspace is non-trivial if some module declares one spelling at least twice (shadowing); distinct by FNV-1a of its files; evaluations = goto queries. One workspace in three is split into two local packages (`app` depends on `lib` by path; imports only point from app to lib), so cross-package references, renames and completions are exercised. Second engine (m_types, a quarter of the shards): well-typed programs from the type-directed generator; goto from every recorded use of a local (parameters, let / pattern / clause / use / lambda binders; some spelled like functions or like module accessors, incl. `x.field` on a local that shadows an imported module) must land on its binder. One module in five declares a constructor spelled like a prelude one (Nil, Ok, Error, True, False); a local spelled like a module accessor may stand next to a PATTERN qualifier of that spelling (the qualifier must reach the module); shard 0 also runs seven fixed cases for shapes the generator cannot compose (a constant's `module.name` next to a function or constant of that spelling, aliased pattern qualifiers)."),
+                 "recorded. A workspace is non-trivial if some module declares one spelling at least twice (shadowing); distinct by FNV-1a of its files; evaluations = goto queries. One workspace in three is split into two local packages (`app` depends on `lib` by path; imports only point from app to lib), so cross-package references, renames and completions are exercised. Second engine (m_types, a quarter of the shards): well-typed programs from the type-directed generator; goto from every recorded use of a local (parameters, let / pattern / clause / use / lambda binders; some spelled like functions or like module accessors, incl. `x.field` on a local that shadows an imported module) must land on its binder. One module in five declares a constructor spelled like a prelude one (Nil, Ok, Error, True, False); a local spelled like a module accessor may stand next to a PATTERN qualifier of that spelling (the qualifier must reach the module); shard 0 also runs seven fixed cases for shapes the generator cannot compose (a constant's `module.name` next to a function or constant of that spelling, aliased pattern qualifiers). Since round 8/9: guards written in the clause scope over the clause's own variables; qualified constants in the core; one function body in forty has 70-130 statements; function-typed locals called in todo/panic messages (typed engine)."),
         "assumptions": [
             "soundness everywhere: an answer must be the recorded declaration (file + focus range as glas defines it per kind: name token; whole variant; whole `label: Type` field; `..name` spread; 0..0 for modules)",
             "completeness on the supported core only (DESIGN §5 C05): uses inside unary operands, guards, `todo as`, qualified constants and module qualifiers in pattern/type position are soundness-only",
@@ -193,7 +193,7 @@ PROPS = {
         "death_is_violation": False,
         "rule": ("workspaces = repository/corpus .gleam files, scope-aware generated workspaces, and generated workspaces put through damage (mutation, truncation, import rewiring). Census: goto at every IDENT/U_IDENT token. "
                  "For every non-module target D: own(D) = first identifier token in D's focus range, S_D = {own(D)} + tokens spelled like it whose goto is D. Law: goto(own(D)) = D; references asked at every member of S_D "
-                 "equals S_D as a set, no duplicates; highlight_related equals S_D restricted to the file. Non-trivial = some S_D has >= 2 members; distinct by FNV-1a of the files; evaluations = goto + references queries. One workspace in three is split into two local packages (`app` depends on `lib` by path; imports only point from app to lib), so cross-package references, renames and completions are exercised."),
+                 "equals S_D as a set, no duplicates; highlight_related equals S_D restricted to the file. Non-trivial = some S_D has >= 2 members; distinct by FNV-1a of the files; evaluations = goto + references queries. One workspace in three is split into two local packages (`app` depends on `lib` by path; imports only point from app to lib), so cross-package references, renames and completions are exercised. Since round 8: one labelled parameter in three is spelled like its label and qualified calls carry labelled arguments."),
         "assumptions": [
             "pure law between two real APIs, no ground truth: a goto bug that is mirrored in references is C05's to find",
             "occurrences reaching D through an alias spelling are neither required nor allowed in the set (as the statement says)",
@@ -228,7 +228,7 @@ PROPS = {
         "rule": ("generated workspaces of 2-4 modules split over three packages as the server's loader would (root: local; path dependency: local; build/packages/dep: non-local; root -> both, pathdep -> dep); "
                  "for up to 30 [thorough 80] identifier occurrences per workspace x 52 candidate names (all 15 keywords, lower/upper identifiers incl. a 300-char one, discards, mixed case, numbers, string, operators, "
                  "punctuation, empty, whitespace, spaced, dotted, slashed, multi-line, non-ASCII, comments) rename is called and judged against a reference table; prepare_rename is compared with rename(valid name). "
-                 "evaluations = rename/prepare_rename calls; non-trivial = occurrence for which prepare_rename was compared; distinct by (workspace seed, occurrence). The cursor sits at the start of the name, inside it, or right behind its last character (one of the three per occurrence, seeded); rename and prepare_rename are asked at the same position."),
+                 "evaluations = rename/prepare_rename calls; non-trivial = occurrence for which prepare_rename was compared; distinct by (workspace seed, occurrence). The cursor sits at the start of the name, inside it, or right behind its last character (one of the three per occurrence, seeded); rename and prepare_rename are asked at the same position. Since round 8/9: a free-standing copy of module 0 (no package); every symbol is also renamed to its own current name."),
         "assumptions": [
             "reference: rename must fail unless the name is exactly one identifier of the class the symbol kind requires (own classifier: [a-z][a-z0-9_]* minus keywords / [A-Z][A-Za-z0-9]*), the occurrence is spelled with the declaration's own name, the symbol is not a module or built-in, and its definition lies in a local package; every accepted rename edits files of local packages only",
             "the statement does not require valid renames to succeed; only prepare_rename <=> rename(valid) is checked in that direction",
@@ -246,7 +246,7 @@ PROPS = {
         "rule": ("generated workspaces with up to 2 placeholder identifiers per function at expression positions; the generator records the set of value names visible there (locals innermost-first, module functions/constants/"
                  "constructors, unqualified imports under their local names) and the module accessors. completions(cursor at end of placeholder) must offer exactly that set (keywords/snippets and the five built-in constructors ignored), "
                  "each item replacing exactly the placeholder, and after accepting an item goto on the inserted name must reach the recorded declaration (fresh host). At every qualified use `m.x` completion with trigger '.' "
-                 "must offer exactly m's public functions and constructors of public non-opaque types. non-trivial = hole with >= 3 visible names; distinct by (workspace seed, hole). One workspace in three is split into two local packages (`app` depends on `lib` by path; imports only point from app to lib), so cross-package references, renames and completions are exercised. Second engine (m_types): the `value.` clause on typed programs - for parameters, let variables and clause variables of every custom type of the workspace (and of Int, String, List, tuple, function types) completion after `v.` must offer exactly the labelled fields common to all variants (nothing for non-record types). Each offered name is also compared by KIND with the binding the generator's scoping picks at the hole (a shadowed spelling must be offered as the innermost binding: any local or parameter = kind Param, function = Function, constructor = Variant or - constructors with fields are rendered as functions - Function; constants and module accessors are not judged by kind). Accept-and-resolve also runs for module accessors: the item of kind Module is accepted, a public function of that module appended (`<inserted>.<fn>`), and goto on the inserted accessor must reach the module's file - so an aliased import must insert its alias."),
+                 "must offer exactly m's public functions and constructors of public non-opaque types. non-trivial = hole with >= 3 visible names; distinct by (workspace seed, hole). One workspace in three is split into two local packages (`app` depends on `lib` by path; imports only point from app to lib), so cross-package references, renames and completions are exercised. Second engine (m_types): the `value.` clause on typed programs - for parameters, let variables and clause variables of every custom type of the workspace (and of Int, String, List, tuple, function types) completion after `v.` must offer exactly the labelled fields common to all variants (nothing for non-record types). Each offered name is also compared by KIND with the binding the generator's scoping picks at the hole (a shadowed spelling must be offered as the innermost binding: any local or parameter = kind Param, function = Function, constructor = Variant or - constructors with fields are rendered as functions - Function; constants and module accessors are not judged by kind). Accept-and-resolve also runs for module accessors: the item of kind Module is accepted, a public function of that module appended (`<inserted>.<fn>`), and goto on the inserted accessor must reach the module's file - so an aliased import must insert its alias. Since round 8: member completion asked three ways (trigger character; none behind the dot; none behind the typed prefix); value. probes spelled like a module accessor; an opaque type of another module; one hole per program retyped as a keyword."),
         "assumptions": [
             "expected sets come from the generator's own scoping, never from glas",
             "`value.` field completion is checked on typed programs only (second engine m_types), because scoped-mode programs may be ill-typed",
@@ -286,7 +286,7 @@ PROPS = {
                  "LSP decoder model: strictly increasing, non-empty, inside its line, type in legend, and decoded (line, UTF-16 start, length, type) == the model's for each range; (b) end to end: generated programs with non-ASCII strings "
                  "and comments -> Analysis::syntax_highlight -> encoder -> decoder, compared with the generator's sidecar (uses of functions -> function, constructor uses and constructor declaration names -> type, module qualifiers -> namespace, "
                  "constants/types/fields/declaration names -> not highlighted, nothing highlighted that is not an identifier); range requests == intersecting sub-sequence of the full answer. Non-trivial = >=2 ranges and a multi-byte character. Third part (m_types engine): well-typed generated programs where the type of every local is known by construction - every use of a function-typed local must be tagged function and every use of a local of another type must carry no tag."
-                 " On the wire (m_lsp engine): a fresh real server per session and a client with its OWN capabilities - general.positionEncodings absent / [utf-16] / [utf-8,utf-16] / [utf-32,utf-16] / [utf-16,utf-8] / all three; semanticTokens.tokenTypes empty / the standard list / without namespace / none of the server's / reordered; optionally work-done progress, workspace/configuration and dynamic watched-file registration (server-to-client requests are answered), clientInfo Neovim / VS Code / absent. The document is a generated module with non-ASCII strings plus a fixed tail that puts identifiers after 2-, 3- and 4-byte characters on their line. Everything the server sends is decoded the way a client must: columns in the encoding the server ANNOUNCED in its initialize result (utf-16 if it announces none; it must be one the client offered), token types through the legend it ANNOUNCED. semanticTokens/full must decode to exactly the (byte range, type) list of Analysis::syntax_highlight on the same text in process; documentHighlight and hover asked at up to 10 [24] identifier tokens (those after non-ASCII text first), the position sent in the announced encoding, must select exactly the byte ranges the in-process analysis answers. Then 1-3 ASCII insertions left of a non-ASCII character are sent as incremental changes and semanticTokens/full is asked again: it must decode to the in-process analysis of the new text."),
+                 " On the wire (m_lsp engine): a fresh real server per session and a client with its OWN capabilities - general.positionEncodings absent / [utf-16] / [utf-8,utf-16] / [utf-32,utf-16] / [utf-16,utf-8] / all three; semanticTokens.tokenTypes empty / the standard list / without namespace / none of the server's / reordered; optionally work-done progress, workspace/configuration and dynamic watched-file registration (server-to-client requests are answered), clientInfo Neovim / VS Code / absent. The document is a generated module with non-ASCII strings plus a fixed tail that puts identifiers after 2-, 3- and 4-byte characters on their line. Everything the server sends is decoded the way a client must: columns in the encoding the server ANNOUNCED in its initialize result (utf-16 if it announces none; it must be one the client offered), token types through the legend it ANNOUNCED. semanticTokens/full must decode to exactly the (byte range, type) list of Analysis::syntax_highlight on the same text in process; documentHighlight and hover asked at up to 10 [24] identifier tokens (those after non-ASCII text first), the position sent in the announced encoding, must select exactly the byte ranges the in-process analysis answers. Then 1-3 ASCII insertions left of a non-ASCII character are sent as incremental changes and semanticTokens/full is asked again: it must decode to the in-process analysis of the new text. Since round 8/9: function-typed locals called in todo/panic messages; wire documents that start with a byte-order mark."),
         "exhaustive_scope": "encoder inputs over the small-document space; programs are sampled",
         "assumptions": [
             "locals: the generator does not know whether a local is function-typed in scoped mode, either tag is accepted there; typed programs (engine m_types) decide that clause",
@@ -304,7 +304,7 @@ PROPS = {
         "death_is_violation": False,
         "rule": ("in-process part: exhaustively all documents of <=5 [thorough 6] symbols over {a, LF, CRLF, 2-, 3-, 4-byte} x all valid ordered position pairs (UTF-16 columns) x 7 replacement strings (empty, a, LF, CRLF, 2-byte, 4-byte, a CRLF 2-byte) "
                  "through the primitive sequence of on_did_change (Vfs::set_path_content, convert::from_range, Vfs::change_file_content); seeded sequences of 2-20 edits with full replacements on documents up to 2 KiB. "
-                 "After every edit the server's text must equal the model client document without CR and the stored line map must equal one built from scratch. Non-trivial = document with a multi-byte character or CRLF; distinct by FNV-1a of (doc, edit). In the black-box engine one history in three comes from an editor that still sends the deprecated rangeLength with every ranged change (UTF-16 units of the replaced text, carriage returns included): `range` stays authoritative."),
+                 "After every edit the server's text must equal the model client document without CR and the stored line map must equal one built from scratch. Non-trivial = document with a multi-byte character or CRLF; distinct by FNV-1a of (doc, edit). In the black-box engine one history in three comes from an editor that still sends the deprecated rangeLength with every ranged change (UTF-16 units of the replaced text, carriage returns included): `range` stays authoritative. Since round 9: one document in six starts with a byte-order mark."),
         "exhaustive_scope": "single edits over the small-document space (in-process part)",
         "assumptions": [
             "the per-notification loop of Server::on_did_change itself (several changes per notification, line map re-read between changes, JSON layer) is exercised by the black-box engine m_lsp (C13 second half, see evidence counters prefixed bb_)",
@@ -326,7 +326,7 @@ PROPS = {
         "rule": ("message sequences of 5-60 LSP notifications/requests over 1-3 documents against a fresh real `glas --stdio` process per sequence (release binary built from /repo): didOpen (project files, nested new file, file outside any project, "
                  "gleam.toml, untitled:/git: URIs, duplicates, re-open after close), didChange (valid; line beyond EOF by one and far; column beyond line by one and far; u32::MAX; inside a surrogate pair; start>end; 2-4 changes with an invalid one among them; "
                  "full replacement; closed or never-opened URI), didClose, didSave, didChangeWatchedFiles (existing, deleted, directory, FIFO, toml), every request kind with valid/invalid positions and ranges, rename with good and bad names. "
-                 "Half the sequences are sent stepwise (a round trip after every message attributes a death), half pipelined. Non-trivial = at least one hostile message; distinct by FNV-1a of the sequence. One sequence in six uses documents whose paths are nested in one another (a document path that is a proper ancestor of another document's path; an existing directory opened as a document). Every sequence starts with an initialize from a client of its own kind (position encodings offered, token types, work-done progress, workspace/configuration and dynamic watched-file registration - the server's requests are answered -, clientInfo Neovim / VS Code / none). One valid ranged change in three carries the deprecated rangeLength (as an editor keeping CRLF counts it, or a wrong number on invalid ranges); one watched-file event in five has a change type outside the protocol's 1..3 (0, 4, 7, 2147483647) - ignoring, reloading or dropping the file are all accepted, dying is not."),
+                 "Half the sequences are sent stepwise (a round trip after every message attributes a death), half pipelined. Non-trivial = at least one hostile message; distinct by FNV-1a of the sequence. One sequence in six uses documents whose paths are nested in one another (a document path that is a proper ancestor of another document's path; an existing directory opened as a document). Every sequence starts with an initialize from a client of its own kind (position encodings offered, token types, work-done progress, workspace/configuration and dynamic watched-file registration - the server's requests are answered -, clientInfo Neovim / VS Code / none). One valid ranged change in three carries the deprecated rangeLength (as an editor keeping CRLF counts it, or a wrong number on invalid ranges); one watched-file event in five has a change type outside the protocol's 1..3 (0, 4, 7, 2147483647) - ignoring, reloading or dropping the file are all accepted, dying is not. Since round 9: notifications of the protocol without a handler; position values no u32 can hold (4294967296, -1, 1e20)."),
         "assumptions": [
             "oracle: process alive at the end; every request id answered exactly once (barrier 25 s, then deadlock classification by flat CPU + unanswered probe, else inconclusive); every document's final server text (glas/syntaxTree) lies in the model's acceptable set: "
             "exactly the model text if all edits were valid; after an invalid edit any of forgotten / edit dropped / LSP-spec clamped application",
@@ -347,7 +347,7 @@ PROPS = {
                  "file emptied, file added (roots re-set), dependency edge added/removed (package graph re-set alone), roots+graph replaced - each preceded by ~40 arbitrary queries on the long-lived host. After EVERY step a probe set "
                  "(diagnostics, syntax tree, full highlight per file; hover, goto, references, highlight, completion plain and '.', signature help, prepare-rename, rename at 12 [30] seeded token boundaries per file) is asked of the long-lived host, "
                  "of a fresh host, and of a second fresh host in shuffled order; normal forms must be equal. Every 4th state is additionally re-analysed in a separate process (different HashMap keys) and the per-probe hashes compared. "
-                 "evaluations = probe answers; non-trivial = history with >= 2 changes that completed; distinct by case seed. One history in eighty starts from a chain of 140-147 modules (more than the parse cache's LRU capacity of 128), each calling the previous one, so syntax trees are evicted and re-parsed between queries. One file edit in four carries several successive texts of the file in a single Change (the last one wins). From step 12 on, edits also rewire imports (`import sibling`, `import sibling.{name}` added and removed), so import cycles of length 1-3 are created and broken while results memoised in the other state are still in the database; the imported name is a public function the sibling really has (two times in three), half of the time a new function calls through it, and one such step in three adds a second import under the SAME qualifier (`import other as <accessor of the first>`)."),
+                 "evaluations = probe answers; non-trivial = history with >= 2 changes that completed; distinct by case seed. One history in eighty starts from a chain of 140-147 modules (more than the parse cache's LRU capacity of 128), each calling the previous one, so syntax trees are evicted and re-parsed between queries. One file edit in four carries several successive texts of the file in a single Change (the last one wins). From step 12 on, edits also rewire imports (`import sibling`, `import sibling.{name}` added and removed), so import cycles of length 1-3 are created and broken while results memoised in the other state are still in the database; the imported name is a public function the sibling really has (two times in three), half of the time a new function calls through it, and one such step in three adds a second import under the SAME qualifier (`import other as <accessor of the first>`). Since round 8: one added file in three is a test module, often named like a source module (two files, one module name)."),
         "assumptions": [
             "normal form: sequences whose order carries meaning stay sequences; references, highlights, completion items and rename edits are compared as sorted multisets (HashSet iteration order is not part of the answer)",
             "file removal is not part of the statement and is not generated; FileIds are stable across the history and identical in the fresh hosts",
@@ -367,7 +367,7 @@ PROPS = {
         "rule": ("scenarios mirroring the server's ownership: a main thread owns the AnalysisHost, takes snapshots tagged with the version they were taken at, hands them to 1-4 reader threads and applies 1-6 changes with known "
                  "contents (file edits, file added with roots re-set, package-graph-only change); readers sweep 24 seeded queries (hover, goto, references, completion, highlight, diagnostics, signature help, semantic highlight) cyclically "
                  "with seeded sleeps/yields until cancelled. Recorded at the API boundary: (reader, tag, probe, start time, answer | Cancelled | panic). Afterwards every answer is compared with a fresh sequential analysis of the "
-                 "tagged version. evaluations = recorded queries; non-trivial = scenario in which at least one query answered and at least one was cancelled; distinct by the hash of the global completion order of answers (interleaving signature). One edited file in three gets a draft text and the final text in one Change. 'Never block' is decided as bounded progress: a watchdog thread reports apply-change-blocked:never-returned when an apply_change has not returned after max(60 s, 500 x the time a fresh host needs for the scenario's whole probe set) - readers let go of a snapshot after 2.5 s at the latest and single queries take milliseconds."),
+                 "tagged version. evaluations = recorded queries; non-trivial = scenario in which at least one query answered and at least one was cancelled; distinct by the hash of the global completion order of answers (interleaving signature). One edited file in three gets a draft text and the final text in one Change. 'Never block' is decided as bounded progress: a watchdog thread reports apply-change-blocked:never-returned when an apply_change has not returned after max(60 s, 500 x the time a fresh host needs for the scenario's whole probe set) - readers let go of a snapshot after 2.5 s at the latest and single queries take milliseconds. Since round 9: one scenario in ten is a long session (30-60 changes on the same reader threads), half of them on a 250-400-function call chain whose every version has to be inferred again."),
         "assumptions": [
             "(a) an answer must equal the answer of its snapshot's own version (else: answer of a later/earlier version, or a mixture); (b) only Err(Cancelled) may surface, never a panic; "
             "(c) promptness restated: no query that STARTS more than 700 ms after the next change was requested may still return an answer, and apply_change never takes longer than a reader's sweep cap (2.5 s); "
@@ -393,7 +393,7 @@ PROPS = {
         "rule": ("races: 1-2 generated documents (8-24 items each, non-ASCII strings/comments), 2-7 line-structure-changing edits, after the open and after every edit a batch of 1-16 requests (hover, definition, references, documentHighlight, "
                  "completion, rename, prepareRename, semanticTokens/full) aimed at valid positions of the version just sent; the whole byte stream is written without waiting, split at seeded points with seeded micro-pauses, "
                  "to the server built with --features verif and GLAS_VERIF_SCHED seeded delays at its yield points. A sequential reference run (plain binary, every request asked and awaited at EVERY version) gives the per-version answers. "
-                 "evaluations = races; non-trivial = race with at least one answered request; distinct by the hash of the server's own message order (responses and notifications). Request kinds raced: hover, definition, references, documentHighlight, completion, rename, prepareRename, signatureHelp (aimed inside argument lists), semanticTokens full and range, glas/syntaxTree. A didChange notification carries 1-3 content changes (ranged and full mixed); the sequential reference receives the same changes one notification each, so the intermediate texts exist as versions there and an answer computed on one of them is recognised. The first case of every shard and one case in 25 is a pile-up burst: a document of 1500-3000 functions, one edit at its top and, in the same write, 70-260 requests (hover, definition, documentHighlight, semanticTokens) that all wait on the one recomputation and so are in flight together; judged: every request answered exactly once within 120 s (else the deadlock classifier), a later probe answered, final text equal."),
+                 "evaluations = races; non-trivial = race with at least one answered request; distinct by the hash of the server's own message order (responses and notifications). Request kinds raced: hover, definition, references, documentHighlight, completion, rename, prepareRename, signatureHelp (aimed inside argument lists), semanticTokens full and range, glas/syntaxTree. A didChange notification carries 1-3 content changes (ranged and full mixed); the sequential reference receives the same changes one notification each, so the intermediate texts exist as versions there and an answer computed on one of them is recognised. The first case of every shard and one case in 25 is a pile-up burst: a document of 1500-3000 functions, one edit at its top and, in the same write, 70-260 requests (hover, definition, documentHighlight, semanticTokens) that all wait on the one recomputation and so are in flight together; judged: every request answered exactly once within 120 s (else the deadlock classifier), a later probe answered, final text equal. Since round 8: one two-document race in three opens its second document last, behind the last edit of the first (whose text ends in a syntax error)."),
         "assumptions": [
             "(a) every request answered exactly once by a 30 s barrier, else deadlock classification (probe unanswered + flat CPU, gdb stacks attached) or inconclusive; (b) a probe after the burst is answered; "
             "(c) a result must equal (normal form) the sequential answer at the version the request was issued against; errors and RequestCancelled are accepted; a result equal to another version's answer or to none is a violation; "
@@ -414,7 +414,7 @@ PROPS = {
                  "transitive-only packages), optionally a `path = \"../pathdep\"` dependency which lists a random subset of the root's registry packages as its own dependencies (the monorepo layout: everything is fetched into the ROOT's build/packages) "
                  "and, one time in three, has a private build/packages/<name> with ANOTHER copy of one of them (other modules), 1-3 modules per package from a pool of 8 names incl. nested directories (equal module names in different packages are common), a test/ module, "
                  "and a free-standing file without gleam.toml; every package's entry module imports 5 module names sampled from the whole tree. A fresh real server per tree; entry modules are opened root-first, dependency-first (a path dependency's file before anything of its owner) or test-module-first, the free-standing file before all of them or only after the import queries (so that nothing re-assembles the package graph in between); the order is part of every signature. textDocument/definition is asked on every qualified use, prepareRename on every resolved one, hover and glas/syntaxTree in the free-standing file. "
-                 "evaluations = trees; distinct by FNV-1a of the tree description. In half of the trees a registry dependency is then removed from the root's gleam.toml on disk and announced through workspace/didChangeWatchedFiles: prepareRename inside the removed package must still be refused (it lives under build/packages) and still be accepted in the root, and the root's imports must follow the new manifest. One tree in four instead has a dependency that is fetched late: build/packages/latedep (listed in the root's manifest from the start, or added to it only then) is written to disk after the first queries, with or without a didChangeWatchedFiles event; a document inside it is opened and prepareRename / rename on its function must be refused - a package under build/packages is a dependency whenever it arrived."),
+                 "evaluations = trees; distinct by FNV-1a of the tree description. In half of the trees a registry dependency is then removed from the root's gleam.toml on disk and announced through workspace/didChangeWatchedFiles: prepareRename inside the removed package must still be refused (it lives under build/packages) and still be accepted in the root, and the root's imports must follow the new manifest. One tree in four instead has a dependency that is fetched late: build/packages/latedep (listed in the root's manifest from the start, or added to it only then) is written to disk after the first queries, with or without a didChangeWatchedFiles event; a document inside it is opened and prepareRename / rename on its function must be refused - a package under build/packages is a dependency whenever it arrived. Since round 8/9: module directories named test/src; a fixture project below the root's test/; a dev-dependency-only package; a path dependency of a path dependency."),
         "assumptions": [
             "layout rule (independent model): module name = path below src|test without extension; `import m` from package P may resolve only to a file named m in P or in a package P lists under [dependencies] (registry or path); "
             "if only a transitive or unrelated package has it the answer must be empty; several candidates: any; target URIs are compared after lexical normalisation (path dependencies come back as root/../pathdep/...); "
